@@ -207,22 +207,32 @@ Definition auth_pre (a : auth) : list fld :=
 Definition auth_collide (a b : auth) : bool :=
   String.eqb (cat (auth_pre a)) (cat (auth_pre b)) && negb (auth_eqb a b).
 
+Definition forwards (s : step) : bool :=
+  match i_kind (st_inst s) with
+  | KCtx | KGen => enabled (st_inst s)
+  | _ => false
+  end.
+
 (** C11-F4: two look-ups whose pre-images (of the key or, for different endpoints, of the
     endpoint hash or of the authentication strategy's hash) are equal although their writes differ *)
-Definition p_F4 (fx : fixes) (H : string -> string) (a b : step) : bool :=
+Definition p_F4k (fx : fixes) (H : string -> string) (a b : step) : bool :=
   both (fun s => enabled (st_inst s)) a b &&
   (collide (opt_fields fx H a) (opt_fields fx H b) ||
    (negb (ep_eqb (eff_ep (st_inst a)) (eff_ep (st_inst b))) &&
     (collide (ep_fields fx H (st_ho a) (eff_ep (st_inst a))) (ep_fields fx H (st_ho b) (eff_ep (st_inst b))) ||
      auth_collide (e_auth (eff_ep (st_inst a))) (e_auth (eff_ep (st_inst b)))))).
 
-Definition g_F4 (fx : fixes) (H : string -> string) (steps : list step) : bool := exists_pair (p_F4 fx H) steps.
+(** … and, with fixes/C11-F6.diff, of the two digests over the forwarded names and values *)
+Definition p_F4_fwd (fx : fixes) (a b : step) : bool :=
+  both forwards a b && fx6 fx &&
+  (collide (kv_fields (fwd_pairs (i_fwdh (st_inst a)) (q_headers (st_req a))))
+           (kv_fields (fwd_pairs (i_fwdh (st_inst b)) (q_headers (st_req b)))) ||
+   collide (kv_fields (fwd_pairs (i_fwdc (st_inst a)) (q_cookies (st_req a))))
+           (kv_fields (fwd_pairs (i_fwdc (st_inst b)) (q_cookies (st_req b))))).
 
-Definition forwards (s : step) : bool :=
-  match i_kind (st_inst s) with
-  | KCtx | KGen => enabled (st_inst s)
-  | _ => false
-  end.
+Definition p_F4 (fx : fixes) (H : string -> string) (a b : step) : bool := p_F4k fx H a b || p_F4_fwd fx a b.
+
+Definition g_F4 (fx : fixes) (H : string -> string) (steps : list step) : bool := exists_pair (p_F4 fx H) steps.
 
 (** C11-F6: forwarded header / cookie VALUES differ between two look-ups of a
     generic contextualizer or authenticator (only the names are in the key of the
@@ -301,7 +311,8 @@ Definition wf_tplb (t : tpl) : bool := forallb wf_pieceb t && no_adjacent_lits t
 Definition wf_instb (i : inst) : bool :=
   let e := eff_ep i in
   sortedb (e_headers e) && sortedb (i_values i) && wf_tplb (e_url e) &&
-  forallb (fun kt => wf_tplb (snd kt)) (e_headers e).
+  forallb (fun kt => wf_tplb (snd kt)) (e_headers e) &&
+  match i_payload i with Some t => wf_tplb t | None => true end.
 
 (* ------------------------------------------------------------------ what a key is made of *)
 
